@@ -19,9 +19,9 @@ PROPERTY = 'C05'
 LEVEL = 'model_checking'
 
 K = [0.0, -0.0, 360.0, 720.0, -360.0, -1e-14, 1e-14, 359.99999999999994, -1e-9, 1e-9, -4e-7, 90.0, -90.0, 45.5,
-     1000000.5, 179.99999999999997]
+     1000000.5, 179.99999999999997, 180.0, 120.0]
 KSMALL = [-1e-14, -1e-9, 360.0, 90.0, 45.5]
-SCALES = [-1.0, 0.5, 360.0, 1e-14, -1e-14]
+SCALES = [-1.0, 0.5, 360.0, 1e-14, -1e-14, 2.0, 3.0]
 A2 = [(0.0, -1e-14, 0.0), (-1e-14, 0.0, -1e-14), (90.0, 0.0, 0.0), (0.0, 90.0, 0.0), (270.0, 359.99999999999994, 1e-9)]
 # recorded known finding (see known_findings.json): does not stop the search from expanding the state
 BENIGN = frozenset({'text_negative_zero'})
@@ -100,6 +100,13 @@ def apply(st: St, op: list) -> None:
             st.A = Angle(op[1], op[2], op[3])
         elif k == 'A_new_iter':
             st.A = Angle([op[1], op[2]], 0.0, op[1])
+        elif k == 'A_from_vecobj':
+            # the single-argument constructor forms: a vector object, a frozen vector, the V register (any magnitude)
+            st.A = Angle(Vec(op[1], -op[1], 720.0 + op[1]))
+            st.FA = FrozenAngle(FrozenVec(-op[1], 360.0, op[1]))
+            res.append(Angle(V))
+            res.append(FrozenAngle(st.FV))
+            res.append(Angle(-Vec(0.0, 90.0, op[1])))
         elif k == 'FA_new':
             st.FA = FrozenAngle(op[1], op[2], op[3])
         elif k == 'FA_new_iter':
@@ -325,7 +332,7 @@ def apply(st: St, op: list) -> None:
         st.problems.append(('op_raised', f'{op} raised {type(exc).__name__}: {exc}'))
 
 
-CORE_CONST = {-1e-14, 360.0, -90.0, 359.99999999999994, 90.0, -1e-9, 1e-14, -1.0}
+CORE_CONST = {-1e-14, 360.0, -90.0, 359.99999999999994, 90.0, -1e-9, 1e-14, -1.0, 180.0, 2.0}
 
 
 def is_core(op: list) -> bool:
@@ -372,6 +379,7 @@ class Model(bfs.Model):
             ops.append(['FA_new_iter', kv])
             ops.append(['A_with_axes', kv])
             ops.append(['A_from_V', kv])
+            ops.append(['A_from_vecobj', kv])
         for s in SCALES:
             ops.append(['A_imul', s])
             ops.append(['A_mul', s])
